@@ -2,6 +2,7 @@
 //
 // Drives the REAL Boost.PropertyTree and the REAL amgcl params structs instantiated at backend::builtin<double>.
 // Ops (the same text is answered by lean/Amgcl/Driver/Params.lean from the table regenerated from /repo):
+//   params_nested Root c1=T1 … field value |
 //   params_compiles S | params_fields S | params_roundtrip S field value | params_export_keys S | params_unknown S key
 //   params_enum_print E ident | params_enum_parse E text | params_runtime E ident-or-text
 // Oracles (independent of the Lean model; judged against the hand-written registry below):
@@ -206,7 +207,7 @@ static Sys poisson2d(int m, bool nonsym) {
     }
     return s;
 }
-struct Out { std::vector<double> x; size_t iters = 0; double resid = 0; };
+struct Out { std::vector<double> x; size_t iters = 0; double resid = 0; int levels = -1; };
 static bool bitwise_equal(const Out &a, const Out &b) {
     return a.iters == b.iters && memcmp(&a.resid, &b.resid, sizeof(double)) == 0 && a.x.size() == b.x.size() &&
            (a.x.empty() || memcmp(a.x.data(), b.x.data(), a.x.size() * sizeof(double)) == 0);
@@ -215,6 +216,7 @@ template <class Solver, class Prm> static Out run(const Sys &s, const Prm &prm) 
     Solver S(std::tie(s.n, s.ptr, s.col, s.val), prm);
     Out o; o.x.assign(s.n, 0.0);
     std::tie(o.iters, o.resid) = S(s.rhs, o.x);
+    { std::ostringstream os; os << S; std::string d = os.str(); size_t a = d.find("Number of levels:"); if (a != std::string::npos) o.levels = atoi(d.c_str() + a + 17); }
     return o;
 }
 template <class P> static auto set_maxiter(P &p, int) -> decltype(p.maxiter, void()) { p.maxiter = 7; }
@@ -223,32 +225,35 @@ template <class P> static auto has_maxiter(const P &p, int) -> decltype(p.maxite
 template <class P> static bool has_maxiter(const P &, long) { return false; }
 
 static const int MAXIT = 7;
+static const unsigned CE = 8;   // coarse_enough: forces a hierarchy with >= 2 levels on the 81-unknown model problem, so that
+                                // relaxation and coarsening objects are really constructed (a one-level hierarchy never
+                                // reads relax.type / coarsening.type)
 
 // each `ct_*` runs the compile-time composition named by the enumerator; returns false for an unknown enumerator
 static bool ct_solver(const std::string &id, const Sys &s, Out &o, bool &maxiter) {
-#define X(T) if (id == #T) { typedef ac::make_solver<AMG, ac::solver::T<B>> S; S::params p; set_maxiter(p.solver, 0); maxiter = has_maxiter(p.solver, 0); o = run<S>(s, p); return true; }
+#define X(T) if (id == #T) { typedef ac::make_solver<AMG, ac::solver::T<B>> S; S::params p; p.precond.coarse_enough = CE; set_maxiter(p.solver, 0); maxiter = has_maxiter(p.solver, 0); o = run<S>(s, p); return true; }
     X(cg) X(bicgstab) X(bicgstabl) X(gmres) X(lgmres) X(fgmres) X(idrs) X(richardson) X(preonly)
 #undef X
     return false;
 }
 static bool ct_relax(const std::string &id, const Sys &s, Out &o) {
-#define X(T) if (id == #T) { typedef ac::make_solver<ac::amg<B, ac::coarsening::smoothed_aggregation, ac::relaxation::T>, ac::solver::bicgstab<B>> S; S::params p; p.solver.maxiter = MAXIT; p.precond.npre = 2; o = run<S>(s, p); return true; }
+#define X(T) if (id == #T) { typedef ac::make_solver<ac::amg<B, ac::coarsening::smoothed_aggregation, ac::relaxation::T>, ac::solver::bicgstab<B>> S; S::params p; p.solver.maxiter = MAXIT; p.precond.npre = 2; p.precond.coarse_enough = CE; o = run<S>(s, p); return true; }
     X(gauss_seidel) X(ilu0) X(iluk) X(ilup) X(ilut) X(damped_jacobi) X(spai0) X(spai1) X(chebyshev)
 #undef X
     return false;
 }
 static bool ct_coarsening(const std::string &id, const Sys &s, Out &o) {
-#define X(T) if (id == #T) { typedef ac::make_solver<ac::amg<B, ac::coarsening::T, ac::relaxation::spai0>, ac::solver::bicgstab<B>> S; S::params p; p.solver.maxiter = MAXIT; p.precond.coarse_enough = 8; o = run<S>(s, p); return true; }
+#define X(T) if (id == #T) { typedef ac::make_solver<ac::amg<B, ac::coarsening::T, ac::relaxation::spai0>, ac::solver::bicgstab<B>> S; S::params p; p.solver.maxiter = MAXIT; p.precond.coarse_enough = CE; o = run<S>(s, p); return true; }
     X(ruge_stuben) X(aggregation) X(smoothed_aggregation) X(smoothed_aggr_emin)
 #undef X
     return false;
 }
 static bool ct_class(const std::string &id, const Sys &s, Out &o) {
     typedef ac::solver::fgmres<B> Outer;
-    if (id == "amg") { typedef ac::make_solver<AMG, Outer> S; S::params p; p.solver.maxiter = MAXIT; o = run<S>(s, p); return true; }
+    if (id == "amg") { typedef ac::make_solver<AMG, Outer> S; S::params p; p.solver.maxiter = MAXIT; p.precond.coarse_enough = CE; o = run<S>(s, p); return true; }
     if (id == "relaxation") { typedef ac::make_solver<ac::relaxation::as_preconditioner<B, ac::relaxation::spai0>, Outer> S; S::params p; p.solver.maxiter = MAXIT; o = run<S>(s, p); return true; }
     if (id == "dummy") { typedef ac::make_solver<ac::preconditioner::dummy<B>, Outer> S; S::params p; p.solver.maxiter = MAXIT; o = run<S>(s, p); return true; }
-    if (id == "nested") { typedef ac::make_solver<ac::make_solver<AMG, ac::solver::bicgstab<B>>, Outer> S; S::params p; p.solver.maxiter = MAXIT; p.precond.solver.maxiter = 2; o = run<S>(s, p); return true; }
+    if (id == "nested") { typedef ac::make_solver<ac::make_solver<AMG, ac::solver::bicgstab<B>>, Outer> S; S::params p; p.solver.maxiter = MAXIT; p.precond.solver.maxiter = 2; p.precond.precond.coarse_enough = CE; o = run<S>(s, p); return true; }
     return false;
 }
 
@@ -270,26 +275,27 @@ static Result runtime_op(const Toks &t) {
         ptree p;
         if (e == "runtime::solver") {
             bool mi = false; known = ct_solver(x, s, ct, mi);
-            p.put("solver.type", text); if (mi) p.put("solver.maxiter", MAXIT);
+            p.put("solver.type", text); if (mi) p.put("solver.maxiter", MAXIT); p.put("precond.coarse_enough", CE);
             rt = run<ac::make_solver<AMG, ac::runtime::solver::wrapper<B>>>(s, p);
         } else if (e == "runtime::relaxation") {
             known = ct_relax(x, s, ct);
-            p.put("precond.relax.type", text); p.put("precond.npre", 2); p.put("solver.maxiter", MAXIT);
+            p.put("precond.relax.type", text); p.put("precond.npre", 2); p.put("solver.maxiter", MAXIT); p.put("precond.coarse_enough", CE);
             rt = run<ac::make_solver<ac::amg<B, ac::coarsening::smoothed_aggregation, ac::runtime::relaxation::wrapper>, ac::solver::bicgstab<B>>>(s, p);
         } else if (e == "runtime::coarsening") {
             known = ct_coarsening(x, s, ct);
-            p.put("precond.coarsening.type", text); p.put("precond.coarse_enough", 8); p.put("solver.maxiter", MAXIT);
+            p.put("precond.coarsening.type", text); p.put("precond.coarse_enough", CE); p.put("solver.maxiter", MAXIT);
             rt = run<ac::make_solver<ac::amg<B, ac::runtime::coarsening::wrapper, ac::relaxation::spai0>, ac::solver::bicgstab<B>>>(s, p);
         } else if (e == "runtime::precond_class") {
             known = ct_class(x, s, ct);
             p.put("precond.class", text); p.put("solver.maxiter", MAXIT);
-            if (x == "nested") p.put("precond.solver.maxiter", 2);
+            if (x == "nested") { p.put("precond.solver.maxiter", 2); p.put("precond.precond.coarse_enough", CE); }
+            if (x == "amg") p.put("precond.coarse_enough", CE);
             rt = run<ac::make_solver<ac::runtime::preconditioner<B>, ac::solver::fgmres<B>>>(s, p);
         } else if (e == "preconditioner::side") {
-            typedef ac::make_solver<AMG, ac::solver::gmres<B>> S; S::params q; q.solver.maxiter = MAXIT;
+            typedef ac::make_solver<AMG, ac::solver::gmres<B>> S; S::params q; q.solver.maxiter = MAXIT; q.precond.coarse_enough = CE;
             if (x == "left") q.solver.pside = ac::preconditioner::side::left; else if (x == "right") q.solver.pside = ac::preconditioner::side::right; else throw bad_input("side");
             ct = run<S>(s, q); known = true;
-            p.put("solver.pside", text); p.put("solver.maxiter", MAXIT);
+            p.put("solver.pside", text); p.put("solver.maxiter", MAXIT); p.put("precond.coarse_enough", CE);
             rt = run<S>(s, S::params(p));
         } else throw bad_input("enum without run-time comparison");
         if (!known) { r.out = "no-compile-time-class"; r.fail("enum " + e + " value " + x + ": the harness has no compile-time composition for this enumerator (new value?)"); return r; }
@@ -297,6 +303,9 @@ static Result runtime_op(const Toks &t) {
         else { r.out = "differ"; r.fail("enum " + e + " value " + x + ": run-time wrapper and compile-time class differ (iters " + std::to_string(rt.iters) + " vs " + std::to_string(ct.iters) + ")"); }
         if (rt.iters > (size_t)MAXIT) r.fail("enum " + e + " value " + x + ": maxiter set through the tree did not take effect");
         if (rt.iters >= 2) r.tag("iters_ge2");
+        if (rt.levels >= 2) r.tag("levels_ge2");
+        if (rt.levels != ct.levels) r.fail("enum " + e + " value " + x + ": run-time and compile-time hierarchies have different depth");
+        if (rt.levels >= 0 && rt.levels < 2) r.fail("harness: model problem too small, the hierarchy has a single level (components never constructed)");
     } catch (const std::invalid_argument &ex) {
         std::string w = ex.what();
         if (w.find("Unsupported") != std::string::npos) { r.out = "unsupported"; r.fail("enum " + e + " value " + x + ": no case in a wrapper switch (" + w.substr(0, 60) + ")"); }
@@ -328,6 +337,20 @@ static Result execute(const Toks &t) {
 static void generate(Rng &rng, const Opts &o, std::vector<std::string> &lines) {
     build_registry();
     vp::gen_struct_ops(rng, o.thorough(), lines);
+    vp::gen_nested_ops(rng, o.thorough(), {
+        "make_solver precond=amg npre",
+        "make_solver precond=amg coarsening=coarsening::smoothed_aggregation relax",
+        "make_solver precond=amg coarsening=coarsening::smoothed_aggregation aggr=coarsening::plain_aggregates eps_strong",
+        "make_solver solver=solver::cg maxiter",
+        "preconditioner::schur_pressure_correction usolver=make_solver precond=amg ncycle",
+        "preconditioner::schur_pressure_correction psolver=make_solver solver=solver::cg tol",
+        "preconditioner::cpr pprecond=amg coarsening=coarsening::smoothed_aggregation power_iters",
+        "preconditioner::cpr_drs pprecond=amg allow_rebuild",
+        "coarsening::aggregation aggr=coarsening::plain_aggregates eps_strong",
+        "relaxation::iluk solve=relaxation::detail::ilu_solve<builtin> serial",
+        "relaxation::ilup solve=relaxation::detail::ilu_solve<builtin> serial",
+        "relaxation::ilu0 solve=relaxation::detail::ilu_solve<builtin> serial",
+        "solver::gmres pside"}, lines);
     vp::gen_enum_text_ops(rng, o.thorough(), lines);
     for (auto &E : vp::enums()) for (auto &id : E.idents) lines.push_back("params_runtime " + E.name + " " + id);
     lines.push_back("params_runtime runtime::solver no_such_solver");
